@@ -17,7 +17,8 @@ THEOREMS = ["Ebv.C04.alloc_bounds", "Ebv.C04.alloc_disjoint", "Ebv.C04.alloc_ali
             "Ebv.C04.temp_disjoint_from_locals", "Ebv.C04.nested_temps_disjoint", "Ebv.C04.subprog_disjoint_refuted",
             "Ebv.C04.temp_vs_subprog_refuted",
             "Ebv.C04.varSlots_bounds", "Ebv.C04.varSlots_disjoint", "Ebv.C04.writeTemps_above", "Ebv.C04.read_write_same",
-            "Ebv.C04.read_write_indep", "Ebv.C04.exec_shadow", "Ebv.C04.progVars_indep", "Ebv.C04.noninterference"]
+            "Ebv.C04.read_write_indep", "Ebv.C04.exec_shadow", "Ebv.C04.progVars_indep", "Ebv.C04.noninterference",
+            "Ebv.C04.relSlots_below", "Ebv.C04.sub_below_main", "Ebv.C04.world_sub_disjoint", "Ebv.C04.world_sub_local"]
 TRUSTED = ["hand-written layout model Ebv.Stack (LocalVar/Dict/Member allocation, get_stack, subprogram address rule; statements as stores of the "
            "variable's width with arbitrary temporaries), tied by exact correspondence of the offsets the real descriptors and the instance's "
            "access path compute and of the values real generated programs leave in every variable",
@@ -36,7 +37,11 @@ RULE = ("layouts: 1..10 declarations (LocalVar of every format, Dict with random
         "exec runs: self-contained programs (1..2 class levels; locals, Dicts over 1..3 shared Structure classes, array-map and hash-map variables) "
         "loaded into the emulated kernel: every variable (each Dict member included) initialised, then 2..11 statements (constant, copy + constant, "
         "sum of two variables, Dict.update(), Dict.lookup()), complete read-out by the program itself at the end and sometimes in the middle, "
-        "compared with the shadow store; non-trivial = at least two declarations")
+        "compared with the shadow store; histories: 2..4 main programs built one after another in one process from shared classes (1..3 SubProgram "
+        "classes, a pool of Structure classes, optionally a common base class with locals and Dicts, sometimes a second instance of a main class "
+        "with other subprograms; one frame clearly larger, at any place of the history), after every step every program built so far is looked at "
+        "again (disjointness; nothing moved); exec histories: 2..3 exec programs over the same Structure classes, all declared first, then loaded and "
+        "run in some order, one of them twice; non-trivial = at least two declarations")
 
 FMT_SIZE = {"B": 1, "b": 1, "H": 2, "h": 2, "I": 4, "i": 4, "Q": 8, "q": 8, "x": 8}
 
@@ -109,7 +114,11 @@ def build(desc):
 
 def observe(desc):
     """slots the real descriptors compute: (addr, size, owner) + temps + final stack"""
-    cls, e, names, subs = build(desc)
+    return observe_built(desc, *build(desc))
+
+
+def observe_built(desc, cls, e, names, subs):
+    """the same on a program that exists already (it may have been built a while ago, other programs after it)"""
     slots, decls = [], []
     members, vdecls = [], []       # variables proper: locals and every member of every Dict's key / value
     for li, nm, kind in names:
@@ -260,9 +269,9 @@ def exec_vars(case):
     return stack + cells
 
 
-def gen_exec(rng):
-    ns = rng.choice([1, 1, 2, 3])
-    case = {"op": "exec", "structs": [packed_members(rng) for _ in range(ns)], "levels": []}
+def gen_exec(rng, structs=None):
+    ns = rng.choice([1, 1, 2, 3]) if structs is None else len(structs)
+    case = {"op": "exec", "structs": [packed_members(rng) for _ in range(ns)] if structs is None else structs, "levels": []}
     nl = rng.choice([1, 1, 2])
     for li in range(nl):
         ds = []
@@ -334,11 +343,17 @@ def expected_exec(case):
     return out
 
 
-def build_exec(case):
-    from ebpfcat.ebpf import EBPF, LocalVar, Structure, Member
+def build_structs(case):
+    from ebpfcat.ebpf import Structure, Member
+    return [type(f"S{i}", (Structure,), {f"m{j}": Member(f) for j, f in enumerate(fs)}) for i, fs in enumerate(case["structs"])]
+
+
+def build_exec(case, structs=None):
+    from ebpfcat.ebpf import EBPF, LocalVar
     from ebpfcat.arraymap import ArrayMap
     from ebpfcat.hashmap import HashMap, Dict
-    structs = [type(f"S{i}", (Structure,), {f"m{j}": Member(f) for j, f in enumerate(fs)}) for i, fs in enumerate(case["structs"])]
+    if structs is None:
+        structs = build_structs(case)
     vs = exec_vars(case)
     am, hm = ArrayMap(), HashMap()
 
@@ -417,23 +432,80 @@ def run_exec(case):
     return {"got": {str(n): v for n, v in got.items()}, "final": got[len(case["stmts"])]}
 
 
-def judge_exec(ctx, case, res):
+def gen_exechist(rng):
+    """2..3 exec programs of one process over the same Structure classes; they are all declared first, then loaded and run
+    in some order, one of them a second time (a fresh object of the same class)"""
+    structs = [packed_members(rng) for _ in range(rng.choice([1, 1, 2, 3]))]
+    progs = [gen_exec(rng, structs) for _ in range(rng.choice([2, 2, 3]))]
+    order = list(range(len(progs))) + [rng.randrange(len(progs))]
+    rng.shuffle(order)
+    return {"op": "exechist", "structs": structs, "progs": progs, "order": order}
+
+
+def run_exechist(case):
+    """[(program number, result of run_exec's kind)] in the order of the runs"""
+    from . import c10
+    from ebpfcat.bpf import ProgType
+    from ebpfcat.ebpf import AssembleError
+    K = c10.EmuKernel(4)
+    out = []
+    try:
+        with c10.emulated(K):
+            structs = build_structs(case)
+            classes = [build_exec(p, structs) for p in case["progs"]]
+    except Exception as ex:
+        return [(None, {"error": f"{type(ex).__name__}: {ex}"})]
+    for j in case["order"]:
+        p = case["progs"][j]
+        nv = len(exec_vars(p))
+        try:
+            with c10.emulated(K):
+                e = classes[j](ProgType.XDP, "GPL")
+                e.load()
+                r0, _ = K.run_prog(e.file_descriptor)
+                if isinstance(r0, str):
+                    out.append((j, {"fault": r0}))
+                    continue
+                got = {n: [getattr(e, f"o{n}_{i}") for i in range(nv)] for n in p["reads"]}
+            out.append((j, {"got": {str(n): v for n, v in got.items()}, "final": got[len(p["stmts"])]}))
+        except AssembleError as ex:
+            out.append((j, {"asm": str(ex)}))
+        except Exception as ex:
+            out.append((j, {"error": f"{type(ex).__name__}: {ex}"}))
+    return out
+
+
+def judge_exechist(ctx, case, results, cases=None, impl=None):
+    ctx.case(case, nontrivial=True, kind="exechist")
+    for n, (j, res) in enumerate(results):
+        if j is None:
+            ctx.require(False, "the programs of the history could not be declared", case, res["error"], None)
+            return
+        judge_exec(ctx, case["progs"][j], res, whole=case, when=f" (run {n}: program {j})")
+        if cases is not None and res.get("final") is not None:
+            cases.append(model_exec(case["progs"][j]))
+            impl.append(" ".join(str(v) for v in res["final"]))
+
+
+def judge_exec(ctx, case, res, whole=None, when=""):
     """the property on the execution: at every read-out each variable holds what was last assigned to it"""
     vs = exec_vars(case)
     if "asm" in res:                  # the generator refuses the program (C05's concern): no execution to judge
         ctx.stats["exec:not-assembled"] += 1
         return
-    ctx.case(case, nontrivial=True, kind="exec")
+    if whole is None:
+        ctx.case(case, nontrivial=True, kind="exec")
     ids = [x for ds in case["levels"] for d in ds if d[0] == "dict" for x in d[1:3]]
     if len(ids) != len(set(ids)):
         ctx.stats["exec:shared-structure-class"] += 1
-    if not ctx.require("error" not in res and "fault" not in res, "the program could not be loaded / faults", case,
+    rep = whole or case       # what is stored as the replay: the whole history
+    if not ctx.require("error" not in res and "fault" not in res, "the program could not be loaded / faults" + when, rep,
                        res.get("error") or res.get("fault"), None):
         return
     for n, want in sorted(expected_exec(case).items()):
         got = res["got"][str(n)]
         bad = [(vs[i][0], want[i], got[i]) for i in range(len(vs)) if want[i] is not None and got[i] != want[i]]
-        if not ctx.require(not bad, f"a variable changed when another one was written (read-out after statement {n})", case,
+        if not ctx.require(not bad, f"a variable changed when another one was written (read-out after statement {n})" + when, rep,
                            "; ".join(f"{nm} should be {w}, is {g}" for nm, w, g in bad[:4]), None):
             return
 
@@ -460,16 +532,16 @@ def model_exec(case):
     return {"op": "exec", "start": 0, "decls": decls, "cells": cells, "stmts": stmts}
 
 
-def judge_layout(ctx, desc, o):
+def judge_layout(ctx, desc, o, when=""):
     """property oracle on a layout: declared variables and temporaries pairwise disjoint"""
     main = o["slots"]
     for i in range(len(main)):
         for j in range(i):
-            ctx.require(not overlap(main[i], main[j]), f"{main[i][2]} and {main[j][2]} share stack bytes", desc, str(main), None)
+            ctx.require(not overlap(main[i], main[j]), f"{main[i][2]} and {main[j][2]} share stack bytes" + when, desc, str(main), None)
     mem = o["members"]
     for i in range(len(mem)):
         for j in range(i):
-            ctx.require(not overlap(mem[i], mem[j]), f"the variables {mem[i][2]} and {mem[j][2]} share stack bytes", desc,
+            ctx.require(not overlap(mem[i], mem[j]), f"the variables {mem[i][2]} and {mem[j][2]} share stack bytes" + when, desc,
                         str((mem[i], mem[j])), None)
     live = []
     for t in o["temps"]:
@@ -483,9 +555,143 @@ def judge_layout(ctx, desc, o):
                 ctx.require(not overlap(ss[i], ss[j]), "locals of two subprogram instances share stack bytes", desc, str((ss[i], ss[j])),
                             "subprogram-locals")
         for s in main + mem:
-            ctx.require(not overlap(ss[i], s), "a subprogram local overlaps a main-program variable", desc, str((ss[i], s)), None)
+            ctx.require(not overlap(ss[i], s), "a subprogram local overlaps a main-program variable" + when, desc, str((ss[i], s)), None)
         for t in o["temps"]:
             ctx.require(not overlap(ss[i], t), "a get_stack temporary overlaps a subprogram local", desc, str((ss[i], t)), "subprogram-locals")
+
+
+# ---- histories: several main programs built one after another in one process, sharing classes ------------------
+# What a program's variables are is fixed by its own declarations.  The classes a program is put together from
+# (SubProgram classes, Structure classes, a base class with locals and Dicts, the main class itself for a second
+# instance) are shared with other programs of the process, and their descriptors are where anything remembered from
+# an earlier use would live.  So a case is a history: main programs are built in turn, and after every step ALL
+# programs built so far are looked at again, through the same access paths the generated code takes.
+
+def gen_decls(rng, struct_id, lo=0, hi=6):
+    return [["loc", rng.choice("BHIQbhiqx")] if rng.random() < 0.75 else ["dict", struct_id(), struct_id()]
+            for _ in range(rng.randrange(lo, hi))]
+
+
+def gen_hist(rng):
+    pool = [rng.randrange(1 << 30) for _ in range(rng.choice([1, 2, 3]))]
+
+    def struct_id():
+        return rng.choice(pool) if rng.random() < 0.6 else rng.randrange(1 << 30)
+    case = {"op": "hist",
+            "subclasses": [[rng.choice("BHIQbhiq") for _ in range(rng.randrange(1, 4))] for _ in range(rng.choice([1, 1, 2, 3]))],
+            "base": gen_decls(rng, struct_id, 1, 4) if rng.random() < 0.5 else None, "mains": []}
+    big = rng.randrange(4)          # frames of clearly different sizes, the large one at any place in the history
+    for i in range(rng.choice([2, 2, 3, 4])):
+        if i and rng.random() < 0.15:      # a second instance of a main class that exists already, other subprograms
+            m = {"same_as": rng.randrange(i)}
+        else:
+            m = {"base": case["base"] is not None and rng.random() < 0.6,
+                 "levels": [gen_decls(rng, struct_id, 0, 3 if i != big else 8) for _ in range(rng.choice([1, 1, 2]))]}
+            if i == big:
+                m["levels"][-1] += [["loc", "Q"]] * rng.choice([1, 2, 3])
+        m["subs"] = [rng.randrange(len(case["subclasses"])) for _ in range(rng.choice([0, 1, 1, 2, 3]))]
+        m["temps"] = [rng.choice([4, 8]) for _ in range(rng.randrange(0, 3))]
+        case["mains"].append(m)
+    return case
+
+
+class World:
+    """the classes the programs of one history share (each built once)"""
+
+    def __init__(self, case):
+        from ebpfcat.ebpf import EBPF, LocalVar, SubProgram
+        self.case, self.structs, self.built = case, {}, []
+        self.subclasses = [type(f"S{si}", (SubProgram,), {f"s{k}": LocalVar(f) for k, f in enumerate(fmts)})
+                           for si, fmts in enumerate(case["subclasses"])]
+        self.base, self.base_names = EBPF, []
+        if case["base"] is not None:
+            self.base, self.base_names = self.level(EBPF, "B", "vb", case["base"])
+
+    def level(self, parent, cname, prefix, ds):
+        import random
+        from ebpfcat.ebpf import LocalVar
+        from ebpfcat.hashmap import Dict
+        ns, names = {}, []
+        for k, d in enumerate(ds):
+            nm = f"{prefix}_{k}"
+            if d[0] == "loc":
+                ns[nm] = LocalVar(d[1])
+            else:
+                for sid in d[1:3]:
+                    if sid not in self.structs:
+                        self.structs[sid] = make_structure(random.Random(sid), f"S{len(self.structs)}")
+                ns[nm] = Dict(self.structs[d[1]], self.structs[d[2]])
+            names.append((0, nm, d[0]))
+        return type(cname, (parent,), ns), names
+
+    def add(self, i):
+        """build main program number i: its class (unless it is a second instance) and the object with fresh subprograms"""
+        m = self.case["mains"][i]
+        if "same_as" in m:
+            cls, names = self.built[m["same_as"]][0], self.built[m["same_as"]][2]
+        else:
+            from ebpfcat.ebpf import EBPF
+            cls, names = (self.base, list(self.base_names)) if m["base"] else (EBPF, [])
+            for li, ds in enumerate(m["levels"]):
+                cls, ns = self.level(cls, f"M{i}L{li}", f"v{i}x{li}", ds)
+                names = names + ns
+        subs = [self.subclasses[k]() for k in m["subs"]]
+        with fsim.fake_maps():
+            e = cls(subprograms=subs)
+        self.built.append((cls, e, names, subs))
+
+    def look(self, i):
+        return observe_built({"temps": self.case["mains"][i]["temps"]}, *self.built[i])
+
+
+def hist_steps(case):
+    """the real code: [(step, main looked at, observation)] - after every step every program built so far"""
+    w = World(case)
+    out = []
+    for t in range(len(case["mains"])):
+        w.add(t)
+        for i in range(t + 1):
+            out.append((t, i, w.look(i)))
+    return out
+
+
+def model_cases(o):
+    """what the Lean model is asked about one observation, with the implementation's answers"""
+    cases = [{"op": "alloc", "start": 0, "decls": o["decls"]}, {"op": "vars", "start": 0, "decls": o["vdecls"]}]
+    impl = [" ".join(f"{a}:{n}" for a, n, _ in o["slots"]) + f" | {o['final']}",
+            " ".join(f"{a}:{n}" for a, n, _ in o["members"]) + f" | {o['final']}"]
+    if o["temps"]:
+        cases.append({"op": "temps", "stack": o["final"], "sizes": [n for _, n in o["temps"]]})
+        impl.append(" ".join(str(a) for a, _ in o["temps"]))
+    for a, n, nm, rel in o["subslots"][:3]:
+        cases.append({"op": "sub", "stack": o["final"], "rel": rel})
+        impl.append(str(a))
+    return cases, impl
+
+
+def run_hist(ctx, case, cases, impl):
+    try:
+        steps = hist_steps(case)
+    except Exception as ex:
+        ctx.require(False, f"a program of the history could not be built: {type(ex).__name__}: {ex}", case, None, "build")
+        return
+    ctx.case(case, nontrivial=True, kind="hist")
+    if any("same_as" in m for m in case["mains"]):
+        ctx.stats["hist:second-instance-of-a-class"] += 1
+    first = {}
+    for t, i, o in steps:
+        judge_layout(ctx, case, o, f" (program {i} after program {t} was built)")
+        # a program's variables are where they were when it was built: nothing built later moves them
+        key = [o["slots"], o["members"], o["subslots"], o["temps"], o["final"]]
+        if i in first:
+            ctx.require(key == first[i], f"the variables of program {i} moved when program {t} was built", case, str((first[i], key)), None)
+        else:
+            first[i] = key
+        if cases is not None:
+            c, m = model_cases(o)
+            cases.extend(c)
+            impl.extend(m)
+    return steps
 
 
 def run(ctx):
@@ -524,19 +730,64 @@ def run(ctx):
         if res.get("final") is not None:
             cases.append(model_exec(case))
             impl.append(" ".join(str(v) for v in res["final"]))
+    for _ in range(ctx.n(250, 6000)):
+        run_hist(ctx, gen_hist(rng), cases, impl)
+    for _ in range(ctx.n(60, 1500)):
+        case = gen_exechist(rng)
+        judge_exechist(ctx, case, run_exechist(case), cases, impl)
     model = ctx.drive(DRIVER, cases, "stack layout")
     if model is not None:
         for c, i, m in zip(cases, impl, model):
             ctx.agree(f"stack layout {c['op']}", c, i, m)
 
 
+KNOWN_CLASSES = ("subprogram-locals",)
+
+
+class _Collect:
+    """stands in for ctx during a replay"""
+
+    def __init__(self, ctx):
+        import collections
+        self.failures, self.stats, self.ctx = [], collections.Counter(), ctx
+
+    def case(self, *a, **k):
+        pass
+
+    def require(self, cond, what, case, observed=None, cls=None):
+        if not cond:
+            self.failures.append((cls, what, case, observed))
+        return cond
+
+
 def replay(ctx, case):
+    """re-run one stored case.  A case may also contain a constellation of the known finding (two subprogram instances):
+    what is reported is what the case was stored for - the failures outside the known classes; for a single layout, if
+    there are none, the known-class failures (this is how the stored witness of the known finding is replayed)"""
+    col = _Collect(ctx)
+    res = _replay(col, case)
+    new = [f for f in col.failures if f[0] not in KNOWN_CLASSES]
+    if case.get("op") in ("hist", "exechist"):      # never the stored witness of a known finding
+        col.failures = new
+    for cls, what, c, observed in new or col.failures:
+        ctx.require(False, what, c, observed, cls)
+    return res
+
+
+def _replay(ctx, case):
     if case.get("op") == "shadow":
         return {"note": "shadow runs are regenerated from the seed; see the layout cases"}
     if case.get("op") == "exec":
         res = run_exec(case)
         judge_exec(ctx, case, res)
         return res
+    if case.get("op") == "hist":
+        steps = run_hist(ctx, case, None, None)
+        return {"observations": [[t, i, o] for t, i, o in steps or []]}
+    if case.get("op") == "exechist":
+        results = run_exechist(case)
+        judge_exechist(ctx, case, results)
+        return {"runs": results}
     o = observe(case)
     judge_layout(ctx, case, o)
     return o
@@ -548,10 +799,13 @@ LEVEL_TEXT = ("Lean 4 proofs over the stack-layout model, for every declaration 
               "statement list (constants, copies, sums, calls; any temporaries) every variable ends with the value of the shadow store: a statement changes its "
               "target only (exec_shadow, noninterference; induction over the statement list). The subprogram "
               "rule is refuted (two subprogram instances' first locals share a slot; a main-program temporary overlaps a subprogram local) and recorded "
-              "as a known finding. Tie: exact correspondence of the offsets computed by the real LocalVar/Dict/Member descriptors, get_stack and "
+              "as a known finding. For any number of main programs sharing subprogram classes (World), the locals of a main program's subprogram instances "
+              "lie below all of that main program's variables, whatever other programs exist (sub_below_main, world_sub_disjoint, world_sub_local): "
+              "the address rule refers to the instance's own main program only. Tie: exact correspondence of the offsets computed by the real LocalVar/Dict/Member descriptors, get_stack and "
               "fmt_addr for random class hierarchies (addresses taken on the instance's access path, per member); plus shadow-store runs of real generated "
               "programs and exec runs (real programs over locals, Dict members, array-map and hash-map variables in the emulated kernel, final values "
-              "compared with the model's execAll and judged against the shadow store).")
+              "compared with the model's execAll and judged against the shadow store); all of it also on histories of several programs built from "
+              "shared classes in one process, every program re-examined after each later one.")
 LEVEL_NOTE = ("trusted: Lean kernel + standard axioms; layout model validated by correspondence; store footprint of emitted assignments is C01's frame "
               "condition (exercised here only by execution); hash-map variables → C09; array-map layout → C08")
 TECHNIQUE = "Lean 4 induction over declaration lists (disjointness invariant) + exact layout correspondence + shadow-store execution"
